@@ -318,11 +318,18 @@ def _run(plan, base):
     except Violation as v:
         viol = {"clause": v.clause, "sig": v.sig, "detail": v.detail}
     xplan = {"property": PROP, "seed": plan["seed"], "world": w, "steps": steps_out}
-    if "closing" in plan:
-        xplan["closing"] = plan["closing"]
+    for key in ("closing", "sweep_of"):
+        if key in plan:
+            xplan[key] = plan[key]
     stats["outcomes"]["violation" if viol else "held"] = 1
-    return {"violation": viol, "stats": stats, "digest": digest(log), "plan": xplan,
-            "sample": {"world": {k: v for k, v in w.items() if k != "shank_of"}, "shank_of": w.get("shank_of"), "history": log[:8]}}
+    step_events = stats.pop("_step_events", [])
+    if plan.get("sweep_of"):
+        stats["probes"]["crash_point_sweep_plans"] = 1
+    out = {"violation": viol, "stats": stats, "digest": digest(log), "plan": xplan,
+           "sample": {"world": {k: v for k, v in w.items() if k != "shank_of"}, "shank_of": w.get("shank_of"), "history": log[:8]}}
+    if plan.get("want_events"):
+        out["step_events"] = step_events
+    return out
 
 
 def _exec_step(W, st, model, log, stats, bump, seed):
@@ -348,6 +355,7 @@ def _exec_step(W, st, model, log, stats, bump, seed):
     fresh = not any(k.startswith(LABEL + c) for k in before for c in "abcd") and not any(".lf." in k for k in before)
     res = session.run_step(W.root, do_step, st, fault, W.cfg, pool_seed, pre=instrument)
     stats["steps"] += len(res["events"])
+    stats.setdefault("_step_events", []).append(res["events"])
     after = snapshot(W.root)
     fired = res["fired"] if res["fired"] and res["fired"]["kind"] in ("kill", "torn", "io_error", "corrupt") else None
     out = res["outcome"]
@@ -492,6 +500,44 @@ def _check_outputs(W, st, sig0, ctx):
     if kind == "NP21" and st["compress"]:
         if "cbin" not in W.orig_ok():
             raise Violation("C04.S4", f"{sig0}:np21-cbin", "NP2.1 original not compressed in place to a complete .cbin | " + ctx)
+
+
+def sweep_plans(tier, verif_seed):
+    """Crash-point sweeps: for seeded base histories, EVERY event index of the last call is tried
+    once with `kill` (enumeration of the fault axis inside seeded choice of everything else)."""
+    from sim.common import run_seed
+    nbase = {"quick": 1, "thorough": int(os.environ.get("VERIF_C04_SWEEPS", "28"))}[tier]
+    for b in range(nbase):
+        s = run_seed(verif_seed, PROP + "-sweep", b)
+        r = rng_of(s)
+        w = _gen_world(r)
+        w["kind"] = r.choice(["NP24", "NP24", "NP24_1sh", "NP21"])
+        if w["kind"] == "NP24":
+            w["shank_of"] = world.gen_shank_of(r, w["nap"], 4)
+        elif w["kind"] == "NP24_1sh":
+            w["shank_of"] = world.gen_shank_of(r, w["nap"], 1)
+        else:
+            w["shank_of"] = None
+        w["ns"] = r.choice([1000, 2000, 3000])
+        w["nwindow"] = r.choice([1200, 2400])
+        steps = []
+        if r.random() < 0.5:   # earlier complete output exists
+            steps.append({"op": "process", "overwrite": False, "post_check": True, "compress": r.random() < 0.5,
+                          "delete_original": False, "fault": None})
+        target = {"op": "process", "overwrite": bool(steps) or r.random() < 0.3, "post_check": r.random() < 0.8,
+                  "compress": r.random() < 0.6, "delete_original": r.random() < 0.6, "fault": None}
+        base = {"property": PROP, "seed": s, "world": w, "steps": steps + [target], "closing": False, "want_events": True}
+        res = run_plan(base)
+        ev = (res.get("step_events") or [[]])[-1]
+        idx = list(range(len(ev)))
+        if tier == "quick":
+            rr = rng_of(s ^ 1)
+            idx = sorted(rr.sample(idx, min(len(idx), 40)))
+        for k in idx:
+            t = dict(target)
+            t["fault"] = {"kind": "kill", "at": k, "label": ev[k]}
+            yield {"property": PROP, "seed": s, "world": w, "steps": [dict(x) for x in steps] + [t], "closing": True,
+                   "sweep_of": b}
 
 
 def shrink_candidates(plan):
